@@ -2,6 +2,7 @@ package state
 
 import (
 	"encoding/hex"
+	"github.com/MinterTeam/minter-go-node/coreV2/appdb"
 	"log"
 	"math/big"
 	"sync"
@@ -289,7 +290,15 @@ func (s *State) Commit() ([]byte, error) {
 func (s *State) Import(state types.AppState, version string) error {
 	defer s.Checker.RemoveBaseCoin()
 
-	s.App.SetReward(helpers.StringToBigInt(state.PrevReward.Reward), helpers.StringToBigInt(state.PrevReward.Reward))
+	reward := helpers.StringToBigInt(state.PrevReward.Reward)
+	safeReward := reward
+	if state.PrevReward.Off {
+		// the validators' share is being withheld: the full reward is the one derived from the recorded price
+		if r0 := helpers.StringToBigInt(state.PrevReward.AmountBIP); r0.Sign() == 1 {
+			safeReward = appdb.PriceReward(r0, helpers.StringToBigInt(state.PrevReward.AmountUSDT))
+		}
+	}
+	s.App.SetReward(reward, safeReward)
 	s.App.SetMaxGas(state.MaxGas)
 	s.App.SetCoinsCount(uint32(len(state.Coins)))
 
